@@ -157,12 +157,13 @@ Inductive gval :=
 | VSome (v : gval)
 | VStruct (vs : list gval).
 
-(* the zero value of a Go type *)
+(* the zero value of a Go type; the zero time.Time (year 1) is 202934144 s after 1900 modulo 2^32 *)
+Definition zero_time : Z := 202934144.
 Fixpoint zero (t : gty) : gval :=
   match t with
   | GNum _ => VNum 0
   | GStr => VStr []
-  | GTime => VTime 0
+  | GTime => VTime zero_time
   | GRaw => VRaw []
   | GPtr _ => VNil
   | GStruct fs => VStruct (map (fun f => zero (snd f)) fs)
@@ -218,7 +219,15 @@ Fixpoint marshal (d : dict) (app : Z) (t : gty) (a : davp) (v : gval) {struct t}
   | GTime, VTime s =>
     match d_type a with DTime => Ok [ALeaf (d_code a) (avp_flags a) (d_vendor a) (be 4 s)] | _ => Err end
   | GRaw, VRaw b =>
-    match d_type a with DGrouped => Ok [ALeaf (d_code a) (avp_flags a) (d_vendor a) b] | _ => Err end
+    (* the octets are the payload of a grouped AVP; the components leave these members empty, which is
+       a grouped AVP without members *)
+    match d_type a with
+    | DGrouped => Ok [match b with
+                      | [] => ANode (d_code a) (avp_flags a) (d_vendor a) []
+                      | _ => ALeaf (d_code a) (avp_flags a) (d_vendor a) b
+                      end]
+    | _ => Err
+    end
   | GStruct fs, VStruct vs =>
     match d_type a with
     | DGrouped =>
@@ -271,8 +280,8 @@ Fixpoint unmarshal (d : dict) (app : Z) (t : gty) (first : avp) (count : Z) {str
     end
   | GTime =>
     match first with
-    | ALeaf c _ v b => match code_type d app c v with DTime => VTime (ufold b) | _ => VTime 0 end
-    | ANode _ _ _ _ => VTime 0
+    | ALeaf c _ v b => match code_type d app c v with DTime => VTime (ufold b) | _ => VTime zero_time end
+    | ANode _ _ _ _ => VTime zero_time
     end
   | GRaw =>
     (* a []byte field: the datum (a *GroupedAVP, or a scalar) does not convert to it; a fresh slice with
@@ -319,7 +328,7 @@ Fixpoint scan_fields (d : dict) (app : Z) (fs : list (string * gty)) (l : list a
 Definition wire (d : dict) (app : Z) (fs : list (string * gty)) (vs : list gval) : outcome (list Z) :=
   do l <- marshal_fields d app fs vs; Ok (ser_avps l).
 Definition receive (d : dict) (app : Z) (fs : list (string * gty)) (bs : list Z) : outcome (list gval) :=
-  do l <- parse_avps d app (S (length bs)) bs; Ok (scan_fields d app fs l).
+  do l <- parse_avps d app (S (List.length bs)) bs; Ok (scan_fields d app fs l).
 
 (* what the property compares: everything but the raw grouped fields, which the CHF never fills *)
 Fixpoint erase (v : gval) : gval :=
@@ -328,6 +337,27 @@ Fixpoint erase (v : gval) : gval :=
   | VSome v' => VSome (erase v')
   | VStruct vs => VStruct (map erase vs)
   | _ => v
+  end.
+
+(* the values the property quantifies over: numbers within the range of their Go type, strings of
+   octets, times as 32-bit second counts, raw grouped members empty (the components never fill them),
+   shapes as the struct types dictate *)
+Fixpoint in_range (t : gty) (v : gval) {struct t} : bool :=
+  match t, v with
+  | GNum k, VNum z => num_ok k z
+  | GStr, VStr b => bytes_ok b
+  | GTime, VTime s => (0 <=? s) && (s <? 2 ^ 32)
+  | GRaw, VRaw b => match b with [] => true | _ => false end
+  | GPtr _, VNil => true
+  | GPtr t', VSome v' => in_range t' v'
+  | GStruct fs, VStruct vs =>
+    (fix all (fs : list (string * gty)) (vs : list gval) : bool :=
+       match fs, vs with
+       | [], [] => true
+       | (_, ft) :: fr, fv :: vr => in_range ft fv && all fr vr
+       | _, _ => false
+       end) fs vs
+  | _, _ => false
   end.
 
 (* ---- consistency of the tables ---- *)
@@ -355,7 +385,7 @@ Definition entry_ok (d : dict) (app : Z) (a : davp) : bool :=
    sibling fields have different codes *)
 Fixpoint fields_ok (d : dict) (app : Z) (t : gty) : bool :=
   match t with
-  | GPtr t' => fields_ok d app t'
+  | GPtr t' => match t' with GPtr _ => false | _ => fields_ok d app t' end   (* no pointer to pointer *)
   | GStruct fs =>
     (fix all (fs : list (string * gty)) : bool :=
        match fs with
@@ -377,7 +407,7 @@ Definition code_clashes (d : dict) (app : Z) : list (string * string * Z) :=
   flat_map (fun a =>
     flat_map (fun b =>
       if visible app a && visible app b && (d_code a =? d_code b) && (d_vendor a =? d_vendor b) &&
-         negb (String.eqb (d_name a) (d_name b)) && (d_file a <=? d_file b)
+         (match String.compare (d_name a) (d_name b) with Lt => true | _ => false end)
       then [(d_name a, d_name b, d_code a)] else []) d) d.
 
 (* one name, one definition: reloading or loading in another order changes nothing *)
@@ -390,6 +420,7 @@ Definition name_clashes (d : dict) (app : Z) : list string :=
       then [d_name a] else []) d) d.
 
 (* every avp:"..." tag reachable from the message structs, with what is wrong with it (empty = fine) *)
+Definition sub (path n : string) : string := String.append path (String.append "/"%string n).
 Fixpoint tag_problems (d : dict) (app : Z) (path : string) (t : gty) : list (string * string) :=
   match t with
   | GPtr t' => tag_problems d app path t'
@@ -399,12 +430,12 @@ Fixpoint tag_problems (d : dict) (app : Z) (path : string) (t : gty) : list (str
        | [] => []
        | (n, ft) :: fr =>
          (match by_name d app n with
-          | None => [(path ++ "/" ++ n, "not defined in the loaded dictionaries")]
-          | Some a => (if compat ft (d_type a) then [] else [(path ++ "/" ++ n, "data type differs from the Go field type")]) ++
-                      (if entry_ok d app a then [] else [(path ++ "/" ++ n, "code does not resolve to a definition of the same type")])
-          end)%string ++ tag_problems d app (path ++ "/" ++ n) ft ++ all fr
+          | None => [(sub path n, "not defined in the loaded dictionaries"%string)]
+          | Some a => (if compat ft (d_type a) then [] else [(sub path n, "data type differs from the Go field type"%string)]) ++
+                      (if entry_ok d app a then [] else [(sub path n, "code does not resolve to a definition of the same type"%string)])
+          end) ++ tag_problems d app (sub path n) ft ++ all fr
        end) fs ++
     (if nodupb (map (fun f => match by_name d app (fst f) with Some a => d_code a | None => -1 end) fs) then []
-     else [(path, "two fields of one struct share an AVP code")])
+     else [(path, "two fields of one struct share an AVP code"%string)])
   | _ => []
   end.
